@@ -568,6 +568,18 @@ func (sg *skGen) genInvalidHistory() {
 		sg.line("merge 1 2")
 		sg.line("merge 2 1")
 	}
+	// constructors: accuracies outside (0,1), bases not above one, negative bin counts
+	kinds := []string{"log", "linear", "cubic"}
+	for i := 0; i < 6; i++ {
+		a := []float64{0, 1, -0.5, 1.5, math.Nextafter(1, 0), math.Nextafter(0, 1), 0.01, 0.5, math.Inf(1), math.Inf(-1), -1e-300, math.Nextafter(1, 2), 1e-9}[r.Intn(13)]
+		sg.line("mkalpha %s %s", kinds[r.Intn(3)], hexF(a))
+		gm := []float64{1, math.Nextafter(1, 2), math.Nextafter(1, 0), 0, -2, 2, 1.02, 0.5, math.Inf(1)}[r.Intn(9)]
+		if !math.IsInf(gm, 1) {
+			sg.line("mkgamma %s %s %s", kinds[r.Intn(3)], hexF(gm), hexF(float64(r.Range(-3, 3))))
+		}
+		c := []float64{0, 1, -1, -1e-300, 0.5, math.Copysign(0, -1), 1e300}[r.Intn(7)]
+		sg.line("mkbin %d %s", r.Range(-100, 100), hexF(c))
+	}
 	// queries on an empty sketch
 	sg.line("K 3 1 dense%s", x)
 	sg.line("q 3 %s", hexF(0.5))
